@@ -17,6 +17,7 @@ import (
 	"sort"
 	"strings"
 	"sync"
+	"time"
 
 	"github.com/bmeg/grip/kvi"
 	_ "github.com/bmeg/grip/kvi/badgerdb"
@@ -116,10 +117,7 @@ func c10Mutators(thorough bool) []kvMut {
 	for _, k := range c10Keys {
 		out = append(out, kvMut{Kind: "Delete", K: k})
 	}
-	prefixes := []string{"a", "ab", "b", "z"}
-	if thorough {
-		prefixes = append(prefixes, "")
-	}
+	prefixes := []string{"a", "ab", "b", "z", ""} // the empty prefix deletes everything
 	for _, p := range prefixes {
 		out = append(out, kvMut{Kind: "DeletePrefix", K: p})
 	}
@@ -539,6 +537,33 @@ func C10(tier string) int {
 	defer os.RemoveAll(work)
 
 	drivers := []string{"badger", "bolt", "level", "pebble"}
+	// guard: a mutator that never returns would take the whole search (and, if it allocates while it
+	// spins, the machine) with it, so the prefix deletes are first tried once per driver under a watchdog;
+	// a call that is still running after 10 s is reported and the check stops there
+	for _, drv := range drivers {
+		st := &c10Store{name: drv, dir: filepath.Join(work, "probe")}
+		os.MkdirAll(st.dir, 0o755)
+		if err := st.open(); err != nil {
+			fmt.Fprintf(os.Stderr, "C10: cannot open %s: %v\n", drv, err)
+			return 2
+		}
+		st.kv.Set([]byte("a"), []byte("x"))
+		st.kv.Set([]byte("ab"), []byte(""))
+		for _, pfx := range []string{"", "a", "zz"} {
+			done := make(chan struct{})
+			go func() { defer close(done); defer func() { recover() }(); st.kv.DeletePrefix([]byte(pfx)) }()
+			select {
+			case <-done:
+			case <-time.After(10 * time.Second):
+				run.Report(vf.Violation{Sig: fmt.Sprintf("%s|DeletePrefix|never-returns", drv), Detail: fmt.Sprintf("%s: DeletePrefix(%q) on a store holding the keys a, ab is still running after 10 s", drv, pfx), Replay: map[string]any{"driver": drv, "state": "a=x,ab=", "mutator": fmt.Sprintf("DeletePrefix(%q)", pfx)}})
+				run.Coverage["exhaustive"] = false
+				run.Coverage["rule"] = "stopped at the watchdog probe: a prefix delete does not return"
+				run.Coverage["samples"] = []string{fmt.Sprintf("%s DeletePrefix(%q)", drv, pfx)}
+				return run.Finish()
+			}
+		}
+		st.close()
+	}
 	gTransitions, gCursorRuns, gOpens := 0, 0, 0
 	perDriver := map[string]int{}
 	var samples []any
